@@ -1915,7 +1915,7 @@ func (tx *SQLTx) deprecateIndexEntries(
 
 			encVal, _, _ := EncodeValueAsKey(currVal, col.colType, col.MaxLen())
 
-			encodedValues[i+3] = encVal
+			encodedValues[i+2] = encVal
 		}
 
 		// mark existent index entry as deleted
